@@ -652,4 +652,531 @@ theorem fclaimE_letpar {n : Nat} (hB : FClaimB n) (hP : FClaimP n) {fnOk : Bool}
   | brk l rs2 => rw [h1] at hL; exact hL.elim
   | cont l rs2 => rw [h1] at hL; exact hL.elim
 
+/-- the bindings of a parallel `let` alone (initialisers, then the `popStackPutEnv`s in reverse order),
+against `evalList` followed by `bindAll` — what `fclaimE_letpar` does before the body -/
+theorem letpar_binds {n : Nat} (hP : FClaimP n) {fnOk : Bool} {self : String} {bs : List (String × Expr)}
+    (isFn : Nat → Bool) (c : Ctx) (gs : GS) (r : (List Instr × Bool) × GS)
+    (ha : (compileBinds isFn c false bs).run gs = .ok r) (hfn : FnameOk self c)
+    (hnd : (bs.map (·.1)).Nodup) (hbs : FfBinds fnOk self bs = true)
+    (m : Nat → Nat) (s : St) (rs : Ref.St) (fr : Nat) (pre post : List Instr) (hrel : RelF m s rs fr)
+    (hgen : fnOk = true → GenOk gs r.2 s)
+    (hseg : Seg s pre (r.1.1 ++ (bs.map (fun p => Instr.popStackPutEnv p.1)).reverse) post) :
+    SimFU (r.1.1 ++ (bs.map (fun p => Instr.popStackPutEnv p.1)).reverse) m s rs fr
+      (match Ref.evalList n (bs.map (·.2)) fr rs with
+       | .ok vs s => (match Ref.bindAll s fr (bs.map (·.1)) vs with
+          | some s => .ok () s
+          | none => .err s)
+       | .err s => .err s | .brk l s => .brk l s | .cont l s => .cont l s | .timeout => .timeout) := by
+  have hL := hP fnOk self bs hbs isFn c gs r ha hfn m s rs fr pre
+    ((bs.map (fun p => Instr.popStackPutEnv p.1)).reverse ++ post) hrel hgen (hseg.refocus (by simp))
+  cases h1 : Ref.evalList n (bs.map (·.2)) fr rs with
+  | ok vs' rs2 =>
+    rw [h1] at hL
+    obtain ⟨s2, m2, vs, r2, hfn2, hpc2, hdata2, hvs2, rel2, hm2, ext2, fr2, hcl2⟩ := hL
+    simp only
+    have hlen : vs.length = bs.length := by
+      have := ref_evalList_length _ _ _ _ _ _ h1
+      rw [hvs2] at this
+      simpa using this
+    have hmapI : ((bs.map (·.1)).zip vs).reverse.map (fun p => Instr.popStackPutEnv p.1)
+        = (bs.map (fun p => Instr.popStackPutEnv p.1)).reverse := by
+      rw [List.map_reverse]
+      congr 1
+      have : ((bs.map (·.1)).zip vs).map (fun p => Instr.popStackPutEnv p.1)
+          = (((bs.map (·.1)).zip vs).map (·.1)).map Instr.popStackPutEnv := by rw [List.map_map]; rfl
+      rw [this, List.map_fst_zip (by simp [hlen]), List.map_map]; rfl
+    have hmapD : ((bs.map (·.1)).zip vs).reverse.map (fun p => some p.2) = vs.reverse.map some := by
+      have : ((bs.map (·.1)).zip vs).map (fun p => some p.2)
+          = (((bs.map (·.1)).zip vs).map (·.2)).map some := by rw [List.map_map]; rfl
+      rw [List.map_reverse, List.map_reverse, this, List.map_snd_zip (by simp [hlen])]
+    have hndz : ((trPairs m2 ((bs.map (·.1)).zip vs)).map (·.1)).Nodup := by
+      rw [trPairs_zip, List.map_fst_zip (by simp [hlen])]; exact hnd
+    have hsegB : Seg s2 (pre ++ r.1.1)
+        (((bs.map (·.1)).zip vs).reverse.map (fun p => Instr.popStackPutEnv p.1)) post := by
+      rw [hmapI]
+      exact hseg.move hfn2 (by simp) (by rw [hpc2, hseg.pc]; simp)
+    have hokp : ∀ p ∈ ((bs.map (·.1)).zip vs).reverse, okName p.1 = true := by
+      intro p hp
+      have hmem : p.1 ∈ bs.map (·.1) := (List.of_mem_zip (show (p.1, p.2) ∈ _ from List.mem_reverse.mp hp)).1
+      exact ffBinds_names fnOk self bs hbs p.1 hmem
+    have hclp : ∀ p ∈ ((bs.map (·.1)).zip vs).reverse, VOk m2 s2 rs2 p.2 := by
+      intro p hp
+      exact hcl2 p.2 (List.of_mem_zip (show (p.1, p.2) ∈ _ from List.mem_reverse.mp hp)).2
+    have hvm := vm_defineAllF ((bs.map (·.1)).zip vs).reverse s2 rs2 fr _ _ s.data hokp hclp hsegB
+      (by rw [hmapD]; exact hdata2) rel2
+    obtain ⟨k2, hch2, hfc2⟩ := rel2.ctx
+    have hlt2 := hch2.lt
+    obtain ⟨fr0, hfr0⟩ : ∃ fr0, rs2.frames[fr]? = some fr0 := ⟨rs2.frames[fr], by simp [hlt2]⟩
+    have hrev := defineAll_reverse rs2 fr fr0 hfr0 (trPairs m2 ((bs.map (·.1)).zip vs)) hndz
+    rw [bindAll_eq_defineAll, hvs2, ← trPairs_zip]
+    rw [trPairs_reverse] at hvm
+    cases hfwd : defineAll rs2 fr (trPairs m2 ((bs.map (·.1)).zip vs)) with
+    | some a =>
+      cases hbwd : defineAll rs2 fr (trPairs m2 ((bs.map (·.1)).zip vs)).reverse with
+      | some b =>
+        rw [hfwd, hbwd] at hrev
+        rw [hbwd] at hvm
+        obtain ⟨va, vb, hva, hvb, hlook⟩ := hrev
+        obtain ⟨s3, r3, hfn3, hpc3, hdata3, rel3, ext3, fr3⟩ := hvm
+        simp only
+        rw [hvb] at rel3 ext3
+        have rel3a : RelF m2 s3 a fr := by rw [hva]; exact rel3.withVars_congr hfr0 hlook
+        have ext3a : RExt rs2 a := by rw [hva]; exact ⟨ext3.1.withVars_congr, ext3.2⟩
+        have m3 : Moved (r.1.1 ++ (bs.map (fun p => Instr.popStackPutEnv p.1)).reverse).length s s3 :=
+          ⟨hfn3.trans hfn2, by
+            rw [hpc3, hpc2]; simp only [List.length_append, List.length_reverse, List.length_map, List.length_zip, hlen, Nat.min_self]
+            push_cast; omega, hdata3⟩
+        exact ⟨s3, m2, r2.trans r3.toX, m3, rel3a, hm2, ext2.trans ext3a, fr2.trans fr3⟩
+      | none =>
+        rw [hfwd, hbwd] at hrev
+        exact hrev.elim
+    | none =>
+      cases hbwd : defineAll rs2 fr (trPairs m2 ((bs.map (·.1)).zip vs)).reverse with
+      | some b =>
+        rw [hfwd, hbwd] at hrev
+        exact hrev.elim
+      | none =>
+        rw [hbwd] at hvm
+        simp only
+        exact FailsX.of_reach r2 hvm.toX
+  | err rs2 => rw [h1] at hL; exact hL
+  | timeout => trivial
+  | brk l rs2 => rw [h1] at hL; exact hL.elim
+  | cont l rs2 => rw [h1] at hL; exact hL.elim
+
+/-! ## `for` loops (without `break`/`continue`) -/
+
+theorem vOk_not_mark {m s rs v} (h : VOk m s rs v) (L : Nat) : v ≠ .mark L := by
+  intro e; subst e; exact h.mark
+
+/-- the outcome of a piece of loop code that ends in `popUntilMark`: back on the mark -/
+def OnMarkF {α : Type} (m : Nat → Nat) (σ : St) (rs : Ref.St) (fr L : Nat) (D : List (Option Val)) (target : Int)
+    (res : Ref.R α) : Prop :=
+  match res with
+  | .ok _ rs' => ∃ (σ' : St) (m' : Nat → Nat), ReachX σ σ' ∧ σ'.pc = target ∧ σ'.data = some (.mark L) :: D
+      ∧ fnOf σ' σ'.curfunc = fnOf σ σ.curfunc ∧ RelF m' σ' rs' fr ∧ MExt σ m m' ∧ RExt rs rs' ∧ FrameF σ σ'
+  | .err rs' => FailsX σ rs'.trace
+  | .timeout => True
+  | .brk _ _ => False
+  | .cont _ _ => False
+
+/-- code `c` (simulating `res`) followed by `popUntilMark L`, started on the mark -/
+theorem seg_pumF {m : Nat → Nat} {σ : St} {rs : Ref.St} {fr L : Nat} {D : List (Option Val)} {full P c Q : List Instr}
+    {res : Ref.R Val} (hin : InFn σ full) (hc : full = P ++ c ++ (.popUntilMark L :: Q)) (hp : σ.pc = (P.length : Int))
+    (hd : σ.data = some (.mark L) :: D) (hsim : SimF c m σ rs fr res) :
+    OnMarkF m σ rs fr L D (σ.pc + (c.length : Int) + 1) res := by
+  cases res with
+  | ok v rs' =>
+    obtain ⟨σ1, m1, w, r1, l1, hv1, rel1, hm1, ext1, fr1, hcl⟩ := hsim
+    have a1 : At σ1 (P ++ c) (.popUntilMark L) Q :=
+      (hin.of_fn l1.fn).at (by rw [hc]) (by rw [l1.pc, hp]; simp)
+    have hx : ∀ f, (exec (f + 1) (.popUntilMark L)).run σ1 = (.ok (), σ1.jmp (σ1.pc + 1) (some (.mark L) :: D)) :=
+      fun f => exec_popUntilMark f L σ1 [some w] D (by rw [l1.data, hd]; rfl) (Or.inr ⟨w, rfl, vOk_not_mark hcl L⟩)
+    exact ⟨_, m1, r1.trans (Reach.step a1 hx).toX, by rw [St.jmp_pc, l1.pc], rfl, l1.fn, rel1.jmp _ _, hm1, ext1,
+      fr1.trans (FrameF.jmp _ _ _)⟩
+  | err rs' => exact hsim
+  | timeout => trivial
+  | brk l rs' => exact hsim
+  | cont l rs' => exact hsim
+
+theorem OnMarkF.of_reach {α : Type} {m m₁ : Nat → Nat} {σ σ₁ : St} {rs rs₁ : Ref.St} {fr L : Nat} {D : List (Option Val)}
+    {tgt : Int} {res : Ref.R α} (hr : ReachX σ σ₁) (hfn : fnOf σ₁ σ₁.curfunc = fnOf σ σ.curfunc) (hm : MExt σ m m₁)
+    (hext : RExt rs rs₁) (hfr : FrameF σ σ₁) (h : OnMarkF m₁ σ₁ rs₁ fr L D tgt res) : OnMarkF m σ rs fr L D tgt res := by
+  cases res with
+  | ok a rs' =>
+    obtain ⟨σ', m', r, hp, hd, hf, rel, hm', ext, fr'⟩ := h
+    exact ⟨σ', m', hr.trans r, hp, hd, hf.trans hfn, rel, hm.trans hm' hfr.fnsLen, hext.trans ext, hfr.trans fr'⟩
+  | err rs' => exact FailsX.of_reach hr h
+  | timeout => trivial
+  | brk l rs' => exact h
+  | cont l rs' => exact h
+
+/-- **One `for` loop from its test label on** (after the initialiser), against `Ref.loop`. -/
+def FClaimF (n : Nat) : Prop :=
+  ∀ (fnOk : Bool) (self : String) (label : Option String) (test incr : Expr) (body : List Expr),
+  Ff fnOk self test = true → Ff fnOk self incr = true → FfList fnOk self body = true →
+  ∀ (isFn : Nat → Bool) (c : Ctx),
+  ∀ gb rb g2 gt rt g4 gi ri g5, (compileBegin isFn c body).run gb = .ok (rb, g2) →
+    (compile isFn c test).run gt = .ok (rt, g4) → (compile isFn c incr).run gi = .ok (ri, g5) → FnameOk self c →
+  ∀ (L : Nat) (ci pre post : List Instr) (m : Nat → Nat) (σ : St) (rs : Ref.St) (fr : Nat) (D : List (Option Val)),
+    InFn σ (forFull pre post L ci rt.1 ri.1 rb.1) →
+    σ.pc = ((pre.length + ci.length + ri.1.length + 8 : Nat) : Int) →
+    σ.data = some (.mark L) :: D → RelF m σ rs fr →
+    (fnOk = true → GenOk gb g2 σ ∧ GenOk gt g4 σ ∧ GenOk gi g5 σ) →
+    OnMarkF m σ rs fr L D ((pre.length + ci.length + ri.1.length + rt.1.length + rb.1.length + 13 : Nat) : Int)
+      (Ref.loop n label test incr body fr rs)
+
+/-- the body of a loop followed by `popUntilMark`; the body may be empty -/
+theorem body_pumF {n : Nat} (hB : FClaimB n) {fnOk : Bool} {self : String} {body : List Expr}
+    (hbody : FfList fnOk self body = true) {isFn : Nat → Bool} {c : Ctx}
+    (hfn : FnameOk self c) {gb rb g2} (hcb : (compileBegin isFn c body).run gb = .ok (rb, g2))
+    {m : Nat → Nat} {σ : St} {rs : Ref.St} {fr L : Nat} {D : List (Option Val)} {full P Q : List Instr}
+    (hin : InFn σ full) (hc : full = P ++ rb.1 ++ (.popUntilMark L :: Q)) (hp : σ.pc = (P.length : Int))
+    (hd : σ.data = some (.mark L) :: D) (hrel : RelF m σ rs fr) (hgen : fnOk = true → GenOk gb g2 σ) :
+    OnMarkF m σ rs fr L D (σ.pc + (rb.1.length : Int) + 1) (Ref.evalBegin n body fr rs) := by
+  cases body with
+  | nil =>
+    rw [compileBegin] at hcb; simp only [g_pure_ok] at hcb
+    have hrb : rb.1 = [] := by rw [(Prod.mk.inj hcb).1]
+    cases n with
+    | zero => rw [Ref.evalBegin]; trivial
+    | succ k =>
+      rw [Ref.evalBegin]
+      · have a1 : At σ P (.popUntilMark L) Q := hin.at (by rw [hc, hrb]; simp) hp
+        have hx : ∀ f, (exec (f + 1) (.popUntilMark L)).run σ = (.ok (), σ.jmp (σ.pc + 1) (some (.mark L) :: D)) :=
+          fun f => exec_popUntilMark f L σ [] D (by rw [hd]; rfl) (Or.inl rfl)
+        exact ⟨_, m, (Reach.step a1 hx).toX, by rw [St.jmp_pc, hrb]; simp, rfl, rfl, hrel.jmp _ _, MExt.refl _ _,
+          RExt.refl rs, FrameF.jmp _ _ _⟩
+      · omega
+  | cons e0 es0 =>
+    exact seg_pumF hin hc hp hd
+      (hB fnOk self (e0 :: es0) (by simp) hbody isFn c gb (rb, g2) hcb hfn m σ rs fr P _ hrel hgen (hin.seg (by rw [hc]) hp))
+
+theorem fclaimF_succ {n : Nat} (hE : FClaimE n) (hB : FClaimB n) (hF : FClaimF n) : FClaimF (n + 1) := by
+  intro fnOk self label test incr body htest hincr hbody isFn c gb rb g2 gt rt g4 gi ri g5 hcb hct hci hfn
+    L ci pre post m σ rs fr D hin hpc hd hrel hgen
+  rw [Ref.loop]
+  -- the test label
+  have a0 : At σ (pre ++ fHd L ++ ci ++ fMid L ri.1 ++ ri.1 ++ [.popUntilMark L]) .label
+      (rt.1 ++ fBr rb.1 ++ rb.1 ++ fTl L ri.1 rt.1 rb.1 ++ post) :=
+    hin.at (by simp [forFull]) (by rw [hpc]; simp; omega)
+  have r0 := reachX_label a0
+  -- the test
+  have hseg1 : Seg (σ.jmp (σ.pc + 1) σ.data) (pre ++ fHd L ++ ci ++ fMid L ri.1 ++ ri.1 ++ [.popUntilMark L, .label]) rt.1
+      (fBr rb.1 ++ rb.1 ++ fTl L ri.1 rt.1 rb.1 ++ post) :=
+    (hin.of_fn (σ' := σ.jmp (σ.pc + 1) σ.data) rfl).seg (by simp [forFull]) (by rw [St.jmp_pc, hpc]; simp; omega)
+  have ih1 := hE fnOk self test htest isFn c gt (rt, g4) hct hfn m _ rs fr _ _ (hrel.jmp _ _)
+    (fun h => (hgen h).2.1.frame (Frame.jmp σ (σ.pc + 1) σ.data)) hseg1
+  cases h1 : Ref.eval n test fr rs with
+  | ok tv rs1 =>
+    rw [h1] at ih1
+    obtain ⟨σ2, m2, w2, r2, l2, hv2, rel2, hm2, ext2, fr2, hcl2⟩ := ih1
+    simp only
+    have htr : truthy tv = truthy w2 := by rw [hv2]; exact truthy_tr m2 id id w2
+    have hin2 : InFn σ2 (forFull pre post L ci rt.1 ri.1 rb.1) := hin.of_fn (l2.fn.trans rfl)
+    have hpc2 : σ2.pc = ((pre.length + ci.length + ri.1.length + rt.1.length + 9 : Nat) : Int) := by
+      rw [l2.pc, St.jmp_pc, hpc]; push_cast; omega
+    have hd2 : σ2.data = some w2 :: some (.mark L) :: D := by rw [l2.data, St.jmp_data, hd]
+    have a2 : At σ2 (pre ++ fHd L ++ ci ++ fMid L ri.1 ++ ri.1 ++ [.popUntilMark L, .label] ++ rt.1)
+        (.branch false ((rb.1.length : Int) + 4)) ([.label] ++ rb.1 ++ fTl L ri.1 rt.1 rb.1 ++ post) :=
+      hin2.at (by simp [forFull]) (by rw [hpc2]; simp; omega)
+    have hfr02 : FrameF σ σ2 := (FrameF.jmp _ _ _).trans fr2
+    have hgen2 : fnOk = true → GenOk gb g2 σ2 ∧ GenOk gt g4 σ2 ∧ GenOk gi g5 σ2 := fun h =>
+      ⟨(hgen h).1.frame hfr02.toFrame, (hgen h).2.1.frame hfr02.toFrame, (hgen h).2.2.frame hfr02.toFrame⟩
+    by_cases htv : truthy w2 = true
+    · -- the body
+      have hnt : (!truthy tv) = false := by rw [htr, htv]; rfl
+      rw [if_neg (by rw [hnt]; decide)]
+      have r3 := (reach_branch_fall a2 hd2 (by rw [htv]; decide)).toX
+      have a3 : At (σ2.jmp (σ2.pc + 1) (some (.mark L) :: D))
+          (pre ++ fHd L ++ ci ++ fMid L ri.1 ++ ri.1 ++ [.popUntilMark L, .label] ++ rt.1
+            ++ [.branch false ((rb.1.length : Int) + 4)]) .label (rb.1 ++ fTl L ri.1 rt.1 rb.1 ++ post) :=
+        (hin2.of_fn (σ' := σ2.jmp (σ2.pc + 1) (some (.mark L) :: D)) rfl).at (by simp [forFull])
+          (by rw [St.jmp_pc, hpc2]; simp; omega)
+      have r4 := reachX_label a3
+      generalize hσ4 : ((σ2.jmp (σ2.pc + 1) (some (.mark L) :: D)).jmp ((σ2.jmp (σ2.pc + 1) (some (.mark L) :: D)).pc + 1)
+          (σ2.jmp (σ2.pc + 1) (some (.mark L) :: D)).data) = σ4 at r4
+      have hin4 : InFn σ4 (forFull pre post L ci rt.1 ri.1 rb.1) := by subst hσ4; exact hin2.of_fn rfl
+      have hpc4 : σ4.pc = ((pre.length + ci.length + ri.1.length + rt.1.length + 11 : Nat) : Int) := by
+        subst hσ4; simp only [St.jmp_pc, hpc2]; push_cast; omega
+      have hd4 : σ4.data = some (.mark L) :: D := by subst hσ4; rfl
+      have rel4 : RelF m2 σ4 rs1 fr := by subst hσ4; exact (rel2.jmp _ _).jmp _ _
+      have hfr24 : FrameF σ2 σ4 := by subst hσ4; exact (FrameF.jmp _ _ _).trans (FrameF.jmp _ _ _)
+      have hfn24 : fnOf σ4 σ4.curfunc = fnOf σ2 σ2.curfunc := by subst hσ4; rfl
+      have hb := body_pumF hB hbody hfn hcb hin4
+        (P := pre ++ fHd L ++ ci ++ fMid L ri.1 ++ ri.1 ++ [.popUntilMark L, .label] ++ rt.1 ++ fBr rb.1)
+        (Q := [.jump (-((ri.1.length : Int) + rt.1.length + rb.1.length + 6)), .label, .clearMark L, .removeScope,
+          .push .nil] ++ post) (D := D) (by simp [forFull]) (by rw [hpc4]; simp; omega) hd4 rel4
+        (fun h => (hgen2 h).1.frame hfr24.toFrame)
+      have hreach4 := ((r0.trans r2).trans r3).trans r4
+      have hfr4 : FrameF σ σ4 := hfr02.trans hfr24
+      refine OnMarkF.of_reach hreach4 (hfn24.trans (l2.fn.trans rfl)) hm2 ext2 hfr4 ?_
+      cases h2 : Ref.evalBegin n body fr rs1 with
+      | ok vb rs2 =>
+        rw [h2] at hb
+        obtain ⟨σ6, m6, r6, hpc6, hd6, hfn6, rel6, hm6, ext6, fr6⟩ := hb
+        simp only
+        have hin6 : InFn σ6 (forFull pre post L ci rt.1 ri.1 rb.1) := hin4.of_fn hfn6
+        have hpc6' : σ6.pc = ((pre.length + ci.length + ri.1.length + rt.1.length + rb.1.length + 12 : Nat) : Int) := by
+          rw [hpc6, hpc4]; push_cast; omega
+        -- the back jump
+        have a6 : At σ6 (pre ++ fHd L ++ ci ++ fMid L ri.1 ++ ri.1 ++ [.popUntilMark L, .label] ++ rt.1 ++ fBr rb.1 ++ rb.1
+            ++ [.popUntilMark L]) (.jump (-((ri.1.length : Int) + rt.1.length + rb.1.length + 6)))
+            ([.label, .clearMark L, .removeScope, .push .nil] ++ post) :=
+          hin6.at (by simp [forFull]) (by rw [hpc6']; simp; omega)
+        have r7 := (reach_jump a6 (by rw [hpc6']; push_cast; omega)
+          (by rw [hpc6']; simp only [List.length_append, List.length_cons, List.length_nil]; push_cast; omega)).toX
+        have hpc7 : (σ6.jmp (σ6.pc + -((ri.1.length : Int) + rt.1.length + rb.1.length + 6)) σ6.data).pc
+            = ((pre.length + ci.length + 6 : Nat) : Int) := by rw [St.jmp_pc, hpc6']; push_cast; omega
+        have a7 : At (σ6.jmp (σ6.pc + -((ri.1.length : Int) + rt.1.length + rb.1.length + 6)) σ6.data)
+            (pre ++ fHd L ++ ci ++ [.popUntilMark L, .jump ((ri.1.length : Int) + 3)]) .label
+            (ri.1 ++ [.popUntilMark L, .label] ++ rt.1 ++ fBr rb.1 ++ rb.1 ++ fTl L ri.1 rt.1 rb.1 ++ post) :=
+          (hin6.of_fn (σ' := σ6.jmp (σ6.pc + -((ri.1.length : Int) + rt.1.length + rb.1.length + 6)) σ6.data) rfl).at
+            (by simp [forFull]) (by rw [hpc7]; simp; omega)
+        have r8 := reachX_label a7
+        generalize hσ8 : ((σ6.jmp (σ6.pc + -((ri.1.length : Int) + rt.1.length + rb.1.length + 6)) σ6.data).jmp
+          ((σ6.jmp (σ6.pc + -((ri.1.length : Int) + rt.1.length + rb.1.length + 6)) σ6.data).pc + 1)
+          (σ6.jmp (σ6.pc + -((ri.1.length : Int) + rt.1.length + rb.1.length + 6)) σ6.data).data) = σ8 at r8
+        have hin8 : InFn σ8 (forFull pre post L ci rt.1 ri.1 rb.1) := by subst hσ8; exact hin6.of_fn rfl
+        have hpc8 : σ8.pc = ((pre.length + ci.length + 7 : Nat) : Int) := by
+          subst hσ8; rw [St.jmp_pc, hpc7]; push_cast; omega
+        have hd8 : σ8.data = some (.mark L) :: D := by subst hσ8; exact hd6
+        have rel8 : RelF m6 σ8 rs2 fr := by subst hσ8; exact (rel6.jmp _ _).jmp _ _
+        have hfr68 : FrameF σ6 σ8 := by subst hσ8; exact (FrameF.jmp _ _ _).trans (FrameF.jmp _ _ _)
+        have hfn68 : fnOf σ8 σ8.curfunc = fnOf σ6 σ6.curfunc := by subst hσ8; rfl
+        have hgen8 : fnOk = true → GenOk gb g2 σ8 ∧ GenOk gt g4 σ8 ∧ GenOk gi g5 σ8 := fun h =>
+          ⟨(hgen2 h).1.frame ((hfr24.trans fr6).trans hfr68).toFrame, (hgen2 h).2.1.frame ((hfr24.trans fr6).trans hfr68).toFrame,
+            (hgen2 h).2.2.frame ((hfr24.trans fr6).trans hfr68).toFrame⟩
+        have hseg8 : Seg σ8 (pre ++ fHd L ++ ci ++ fMid L ri.1) ri.1
+            ([.popUntilMark L, .label] ++ rt.1 ++ fBr rb.1 ++ rb.1 ++ fTl L ri.1 rt.1 rb.1 ++ post) :=
+          hin8.seg (by simp [forFull]) (by rw [hpc8]; simp; omega)
+        have ih8 := hE fnOk self incr hincr isFn c gi (ri, g5) hci hfn m6 σ8 rs2 fr _ _ rel8 (fun h => (hgen8 h).2.2) hseg8
+        have hs := seg_pumF hin8 (P := pre ++ fHd L ++ ci ++ fMid L ri.1) (c := ri.1)
+          (Q := [.label] ++ rt.1 ++ fBr rb.1 ++ rb.1 ++ fTl L ri.1 rt.1 rb.1 ++ post) (by simp [forFull])
+          (by rw [hpc8]; simp; omega) hd8 ih8
+        refine OnMarkF.of_reach ((r6.trans r7).trans r8) (hfn68.trans hfn6) hm6 ext6 (fr6.trans hfr68) ?_
+        cases h3 : Ref.eval n incr fr rs2 with
+        | ok vs rs3 =>
+          rw [h3] at hs
+          obtain ⟨σ10, m10, r10, hpc10, hd10, hfn10, rel10, hm10, ext10, fr10⟩ := hs
+          simp only
+          refine OnMarkF.of_reach r10 hfn10 hm10 ext10 fr10 ?_
+          exact hF fnOk self label test incr body htest hincr hbody isFn c gb rb g2 gt rt g4 gi ri g5 hcb hct hci hfn
+            L ci pre post m10 σ10 rs3 fr D (hin8.of_fn hfn10) (by rw [hpc10, hpc8]; push_cast; omega) hd10 rel10
+            (fun h => ⟨(hgen8 h).1.frame fr10.toFrame, (hgen8 h).2.1.frame fr10.toFrame, (hgen8 h).2.2.frame fr10.toFrame⟩)
+        | err rs3 => rw [h3] at hs; exact hs
+        | timeout => trivial
+        | brk l rs3 => rw [h3] at hs; exact hs.elim
+        | cont l rs3 => rw [h3] at hs; exact hs.elim
+      | err rs2 => rw [h2] at hb; exact hb
+      | timeout => trivial
+      | brk l rs2 => rw [h2] at hb; exact hb.elim
+      | cont l rs2 => rw [h2] at hb; exact hb.elim
+    · -- the exit branch
+      have hft : truthy w2 = false := by simpa using htv
+      rw [if_pos (by rw [htr, hft]; rfl)]
+      have r3 := (reach_branch_taken a2 hd2 (by rw [hft])
+        (by rw [hpc2]; push_cast; omega)
+        (by rw [hpc2]; simp only [List.length_append, List.length_cons, List.length_nil]; push_cast; omega)).toX
+      exact ⟨_, m2, (r0.trans r2).trans r3, by rw [St.jmp_pc, hpc2]; push_cast; omega, rfl, l2.fn.trans rfl, rel2.jmp _ _, hm2, ext2,
+        hfr02.trans (FrameF.jmp _ _ _)⟩
+  | err rs1 =>
+    rw [h1] at ih1
+    exact FailsX.of_reach r0 ih1
+  | timeout => trivial
+  | brk l rs1 => rw [h1] at ih1; exact ih1.elim
+  | cont l rs1 => rw [h1] at ih1; exact ih1.elim
+
+/-- **A `for` loop** (no `break`/`continue` inside): `loopStart`, `addScope`, `pushMark`, the
+initialiser, the jump to the test, the iterations (`FClaimF`), the end label, `clearMark`,
+`removeScope`, `push nil` — against `newFrame`, `eval init`, `Ref.loop`. -/
+theorem fclaimE_for {n : Nat} (hE : FClaimE n) (hF : FClaimF n) {fnOk : Bool} {self : String} {label : Option String}
+    {init test incr : Expr} {body : List Expr} (hinit : Ff fnOk self init = true) (htest : Ff fnOk self test = true)
+    (hincr : Ff fnOk self incr = true) (hbody : FfList fnOk self body = true) (isFn : Nat → Bool) (c : Ctx) (gs : GS)
+    (r : (List Instr × Bool) × GS)
+    (hc : (compile isFn c (.for_ label init test incr body)).run gs = .ok r) (hfn : FnameOk self c)
+    (m : Nat → Nat) (s : St) (rs : Ref.St) (env : Nat) (pre post : List Instr) (hrel : RelF m s rs env)
+    (hgen : fnOk = true → GenOk gs r.2 s) (hseg : Seg s pre r.1.1 post) :
+    SimF r.1.1 m s rs env (Ref.eval (n + 1) (.for_ label init test incr body) env rs) := by
+  rw [compile_for_eq] at hc
+  cases hb : (compileBegin isFn { c with tail := false, scopes := c.scopes + 1 } body).run (forGs gs c label) with
+  | error e => rw [hb] at hc; cases hc
+  | ok vb =>
+  obtain ⟨rb, g2⟩ := vb
+  rw [hb] at hc; simp only at hc
+  cases hi : (compile isFn { c with tail := false, scopes := c.scopes + 1 } init).run g2 with
+  | error e => rw [hi] at hc; cases hc
+  | ok vi =>
+  obtain ⟨ri, g3⟩ := vi
+  rw [hi] at hc; simp only at hc
+  cases ht : (compile isFn { c with tail := false, scopes := c.scopes + 1 } test).run g3 with
+  | error e => rw [ht] at hc; cases hc
+  | ok vt =>
+  obtain ⟨rt, g4⟩ := vt
+  rw [ht] at hc; simp only at hc
+  cases hs : (compile isFn { c with tail := false, scopes := c.scopes + 1 } incr).run g4 with
+  | error e => rw [hs] at hc; cases hc
+  | ok vs =>
+  obtain ⟨rsn, g5⟩ := vs
+  rw [hs] at hc; simp only at hc
+  injection hc with hc
+  subst hc
+  simp only at hseg hgen ⊢
+  have hfn' : FnameOk self { c with tail := false, scopes := c.scopes + 1 } := hfn
+  have hkb := compileBeginAny_keep_Ff hbody hb hfn'
+  have hki := compile_keep_Ff hinit hi hfn'
+  have hkt := compile_keep_Ff htest ht hfn'
+  have hks := compile_keep_Ff hincr hs hfn'
+  -- the templates of the four parts
+  have hg0 : fnOk = true → GenOk (forGs gs c label) g5 s := fun h => ⟨(hgen h).live, (hgen h).main, (hgen h).len, (hgen h).tmpl⟩
+  have hgb : fnOk = true → GenOk (forGs gs c label) g2 s := fun h => (hg0 h).first ((hki.1.trans hkt.1).trans hks.1)
+  have hgi : fnOk = true → GenOk g2 g3 s := fun h => ((hg0 h).rest hkb.1).first (hkt.1.trans hks.1)
+  have hgt : fnOk = true → GenOk g3 g4 s := fun h => ((hg0 h).rest (hkb.1.trans hki.1)).first hks.1
+  have hgs : fnOk = true → GenOk g4 g5 s := fun h => (hg0 h).rest ((hkb.1.trans hki.1).trans hkt.1)
+  -- the function laid out
+  have hin : InFn s (forFull pre post gs.loops.length ri.1 rt.1 rsn.1 rb.1) := by
+    have := hseg.inFn; rw [forFull_eq] at this; exact this
+  have hpc : s.pc = (pre.length : Int) := hseg.pc
+  rw [Ref.eval]
+  show SimF _ m s rs env
+    (match Ref.eval n init rs.frames.length (Ref.newFrame rs env).2 with
+     | .ok _ s' => Ref.loop n label test incr body rs.frames.length s'
+     | .brk l s' => if l.isNone ∨ l = label then .ok .nil s' else .brk l s'
+     | r => r)
+  -- loopStart, addScope, pushMark, label
+  have a0 : At s pre (.loopStart gs.loops.length) ([.addScope, .pushMark gs.loops.length, .label] ++ ri.1
+      ++ fMid gs.loops.length rsn.1 ++ rsn.1 ++ [.popUntilMark gs.loops.length, .label] ++ rt.1 ++ fBr rb.1 ++ rb.1
+      ++ fTl gs.loops.length rsn.1 rt.1 rb.1 ++ post) := hin.at (by simp [forFull]) hpc
+  have r0 : ReachX s (s.jmp (s.pc + 1) s.data) := (Reach.step a0 (fun f => exec_loopStart f _ s)).toX
+  have a1 : At (s.jmp (s.pc + 1) s.data) (pre ++ [.loopStart gs.loops.length]) .addScope
+      ([.pushMark gs.loops.length, .label] ++ ri.1
+      ++ fMid gs.loops.length rsn.1 ++ rsn.1 ++ [.popUntilMark gs.loops.length, .label] ++ rt.1 ++ fBr rb.1 ++ rb.1
+      ++ fTl gs.loops.length rsn.1 rt.1 rb.1 ++ post) :=
+    (hin.of_fn (σ' := s.jmp (s.pc + 1) s.data) rfl).at (by simp [forFull]) (by rw [St.jmp_pc, hpc]; simp)
+  have r1 : ReachX (s.jmp (s.pc + 1) s.data) (s.jmp (s.pc + 1) s.data).pushScope :=
+    (Reach.step a1 (fun f => exec_addScope f _)).toX
+  have rel2' : RelF m (s.jmp (s.pc + 1) s.data).pushScope (Ref.newFrame rs env).2 rs.frames.length := (hrel.jmp _ _).pushScope
+  generalize hs2 : (s.jmp (s.pc + 1) s.data).pushScope = s2 at r1 rel2'
+  have hin2 : InFn s2 (forFull pre post gs.loops.length ri.1 rt.1 rsn.1 rb.1) := by subst hs2; exact hin.of_fn rfl
+  have hpc2 : s2.pc = ((pre.length + 2 : Nat) : Int) := by
+    subst hs2; show s.pc + 1 + 1 = _; rw [hpc]; push_cast; omega
+  have hd2 : s2.data = s.data := by subst hs2; rfl
+  have hfr2 : FrameF s.pushScope s2 := by
+    subst hs2; exact ⟨⟨rfl, rfl, rfl, rfl, Nat.le_refl _, fun _ _ => rfl, Nat.le_refl _, fun _ _ => rfl⟩, Nat.le_refl _, fun _ _ => rfl⟩
+  have hfn2 : fnOf s2 s2.curfunc = fnOf s s.curfunc := by subst hs2; rfl
+  have hfns2 : s2.fns = s.fns := by subst hs2; rfl
+  have a2 : At s2 (pre ++ [.loopStart gs.loops.length, .addScope]) (.pushMark gs.loops.length) ([.label] ++ ri.1
+      ++ fMid gs.loops.length rsn.1 ++ rsn.1 ++ [.popUntilMark gs.loops.length, .label] ++ rt.1 ++ fBr rb.1 ++ rb.1
+      ++ fTl gs.loops.length rsn.1 rt.1 rb.1 ++ post) := hin2.at (by simp [forFull]) (by rw [hpc2]; simp)
+  have r2 := (Reach.step a2 (fun f => exec_pushMark f gs.loops.length s2)).toX
+  have a3 : At (s2.jmp (s2.pc + 1) (some (.mark gs.loops.length) :: s2.data))
+      (pre ++ [.loopStart gs.loops.length, .addScope, .pushMark gs.loops.length]) .label (ri.1
+      ++ fMid gs.loops.length rsn.1 ++ rsn.1 ++ [.popUntilMark gs.loops.length, .label] ++ rt.1 ++ fBr rb.1 ++ rb.1
+      ++ fTl gs.loops.length rsn.1 rt.1 rb.1 ++ post) :=
+    (hin2.of_fn (σ' := s2.jmp (s2.pc + 1) (some (.mark gs.loops.length) :: s2.data)) rfl).at (by simp [forFull])
+      (by rw [St.jmp_pc, hpc2]; simp; omega)
+  have r3 := reachX_label a3
+  generalize hs4 : ((s2.jmp (s2.pc + 1) (some (.mark gs.loops.length) :: s2.data)).jmp
+    ((s2.jmp (s2.pc + 1) (some (.mark gs.loops.length) :: s2.data)).pc + 1)
+    (s2.jmp (s2.pc + 1) (some (.mark gs.loops.length) :: s2.data)).data) = s4 at r3
+  have hin4 : InFn s4 (forFull pre post gs.loops.length ri.1 rt.1 rsn.1 rb.1) := by subst hs4; exact hin2.of_fn rfl
+  have hpc4 : s4.pc = ((pre.length + 4 : Nat) : Int) := by
+    subst hs4; simp only [St.jmp_pc, hpc2]; push_cast; omega
+  have hd4 : s4.data = some (.mark gs.loops.length) :: s.data := by subst hs4; rw [St.jmp_data, St.jmp_data, hd2]
+  have rel4 : RelF m s4 (Ref.newFrame rs env).2 rs.frames.length := by subst hs4; exact (rel2'.jmp _ _).jmp _ _
+  have hfr24 : FrameF s2 s4 := by subst hs4; exact (FrameF.jmp _ _ _).trans (FrameF.jmp _ _ _)
+  have hfn4 : fnOf s4 s4.curfunc = fnOf s s.curfunc := by subst hs4; exact hfn2
+  have hfns4 : s4.fns = s.fns := by subst hs4; exact hfns2
+  have hk04 : FnsKeep s s4 := FnsKeep.of_fns_eq hfns4
+  have hreach4 : ReachX s s4 := ((r0.trans r1).trans r2).trans r3
+  -- the initialiser
+  have hseg4 : Seg s4 (pre ++ fHd gs.loops.length) ri.1 (fMid gs.loops.length rsn.1 ++ rsn.1
+      ++ [.popUntilMark gs.loops.length, .label] ++ rt.1 ++ fBr rb.1 ++ rb.1
+      ++ fTl gs.loops.length rsn.1 rt.1 rb.1 ++ post) := hin4.seg (by simp [forFull]) (by rw [hpc4]; simp)
+  have ih4 := hE fnOk self init hinit isFn _ g2 (ri, g3) hi hfn' m s4 _ _ _ _ rel4 (fun h => (hgi h).mono hk04) hseg4
+  have hs4' := seg_pumF hin4 (P := pre ++ fHd gs.loops.length) (c := ri.1)
+    (Q := [.jump ((rsn.1.length : Int) + 3), .label] ++ rsn.1 ++ [.popUntilMark gs.loops.length, .label] ++ rt.1
+      ++ fBr rb.1 ++ rb.1 ++ fTl gs.loops.length rsn.1 rt.1 rb.1 ++ post) (by simp [forFull]) (by rw [hpc4]; simp) hd4 ih4
+  have hlen : (forCode gs.loops.length ri.1 rt.1 rsn.1 rb.1).length
+      = ri.1.length + rt.1.length + rsn.1.length + rb.1.length + 17 := by
+    rw [forCode_eq]; simp only [List.length_append, List.length_cons, List.length_nil]; omega
+  cases h1 : Ref.eval n init rs.frames.length (Ref.newFrame rs env).2 with
+  | ok vi rs2 =>
+    rw [h1] at hs4'
+    obtain ⟨s6, m6, r6, hpc6, hd6, hfn6, rel6, hm6, ext6, fr6⟩ := hs4'
+    simp only
+    have hin6 : InFn s6 (forFull pre post gs.loops.length ri.1 rt.1 rsn.1 rb.1) := hin4.of_fn hfn6
+    have hpc6' : s6.pc = ((pre.length + ri.1.length + 5 : Nat) : Int) := by rw [hpc6, hpc4]; push_cast; omega
+    have a6 : At s6 (pre ++ fHd gs.loops.length ++ ri.1 ++ [.popUntilMark gs.loops.length])
+        (.jump ((rsn.1.length : Int) + 3)) ([.label] ++ rsn.1 ++ [.popUntilMark gs.loops.length, .label] ++ rt.1
+        ++ fBr rb.1 ++ rb.1 ++ fTl gs.loops.length rsn.1 rt.1 rb.1 ++ post) :=
+      hin6.at (by simp [forFull]) (by rw [hpc6']; simp; omega)
+    have r7 := (reach_jump a6 (by rw [hpc6']; push_cast; omega)
+      (by rw [hpc6']; simp only [List.length_append, List.length_cons, List.length_nil]; push_cast; omega)).toX
+    have hfr47 : FrameF s4 (s6.jmp (s6.pc + ((rsn.1.length : Int) + 3)) s6.data) := fr6.trans (FrameF.jmp _ _ _)
+    have hgen7 : fnOk = true → GenOk (forGs gs c label) g2 (s6.jmp (s6.pc + ((rsn.1.length : Int) + 3)) s6.data)
+        ∧ GenOk g3 g4 (s6.jmp (s6.pc + ((rsn.1.length : Int) + 3)) s6.data)
+        ∧ GenOk g4 g5 (s6.jmp (s6.pc + ((rsn.1.length : Int) + 3)) s6.data) := fun h =>
+      ⟨((hgb h).mono hk04).frame hfr47.toFrame, ((hgt h).mono hk04).frame hfr47.toFrame, ((hgs h).mono hk04).frame hfr47.toFrame⟩
+    have hloop := hF fnOk self label test incr body htest hincr hbody isFn _ _ rb g2 _ rt g4 _ rsn g5 hb ht hs hfn'
+      gs.loops.length ri.1 pre post m6 (s6.jmp (s6.pc + ((rsn.1.length : Int) + 3)) s6.data) rs2 rs.frames.length s.data
+      (hin6.of_fn rfl) (by rw [St.jmp_pc, hpc6']; push_cast; omega) hd6 (rel6.jmp _ _) hgen7
+    have hreach7 : ReachX s (s6.jmp (s6.pc + ((rsn.1.length : Int) + 3)) s6.data) := (hreach4.trans r6).trans r7
+    cases h2 : Ref.loop n label test incr body rs.frames.length rs2 with
+    | ok v rs3 =>
+      rw [h2] at hloop
+      obtain ⟨s8, m8, r8, hpc8, hd8, hfn8, rel8, hm8, ext8, fr8⟩ := hloop
+      have hv : v = .nil := ref_loop_nil _ _ _ _ _ _ _ _ _ h2
+      subst hv
+      have hin8 : InFn s8 (forFull pre post gs.loops.length ri.1 rt.1 rsn.1 rb.1) := (hin6.of_fn rfl).of_fn hfn8
+      -- end label, clearMark, removeScope, push nil
+      have a8 : At s8 (pre ++ fHd gs.loops.length ++ ri.1 ++ fMid gs.loops.length rsn.1 ++ rsn.1
+          ++ [.popUntilMark gs.loops.length, .label] ++ rt.1 ++ fBr rb.1 ++ rb.1
+          ++ [.popUntilMark gs.loops.length, .jump (-((rsn.1.length : Int) + rt.1.length + rb.1.length + 6))]) .label
+          ([.clearMark gs.loops.length, .removeScope, .push .nil] ++ post) :=
+        hin8.at (by simp [forFull]) (by rw [hpc8]; simp; omega)
+      have r9 := reachX_label a8
+      have a9 : At (s8.jmp (s8.pc + 1) s8.data) (pre ++ fHd gs.loops.length ++ ri.1 ++ fMid gs.loops.length rsn.1 ++ rsn.1
+          ++ [.popUntilMark gs.loops.length, .label] ++ rt.1 ++ fBr rb.1 ++ rb.1
+          ++ [.popUntilMark gs.loops.length, .jump (-((rsn.1.length : Int) + rt.1.length + rb.1.length + 6)), .label])
+          (.clearMark gs.loops.length) ([.removeScope, .push .nil] ++ post) :=
+        (hin8.of_fn (σ' := s8.jmp (s8.pc + 1) s8.data) rfl).at (by simp [forFull]) (by rw [St.jmp_pc, hpc8]; simp; omega)
+      have r10 := (Reach.step a9 (fun f => exec_clearMark f gs.loops.length _ s.data hd8)).toX
+      generalize hs10 : (s8.jmp (s8.pc + 1) s8.data).jmp ((s8.jmp (s8.pc + 1) s8.data).pc + 1) s.data = s10 at r10
+      have hin10 : InFn s10 (forFull pre post gs.loops.length ri.1 rt.1 rsn.1 rb.1) := by subst hs10; exact hin8.of_fn rfl
+      have hpc10 : s10.pc = ((pre.length + ri.1.length + rsn.1.length + rt.1.length + rb.1.length + 15 : Nat) : Int) := by
+        subst hs10; simp only [St.jmp_pc, hpc8]; push_cast; omega
+      have rel10 : RelF m8 s10 rs3 rs.frames.length := by subst hs10; exact (rel8.jmp _ _).jmp _ _
+      have hfr8_10 : FrameF s8 s10 := by subst hs10; exact (FrameF.jmp _ _ _).trans (FrameF.jmp _ _ _)
+      have hd10 : s10.data = s.data := by subst hs10; rfl
+      have hfn10 : fnOf s10 s10.curfunc = fnOf s s.curfunc := by
+        subst hs10; exact (hfn8.trans (hfn6.trans hfn4))
+      -- everything between `addScope` and here left the control stacks alone
+      have hfr_in : FrameF s.pushScope s10 :=
+        (((hfr2.trans hfr24).trans fr6).trans ((FrameF.jmp _ _ _).trans fr8)).trans hfr8_10
+      have hlin10 : s10.linear = some s.scopes.length :: s.linear := hfr_in.linear
+      have a10 : At s10 (pre ++ fHd gs.loops.length ++ ri.1 ++ fMid gs.loops.length rsn.1 ++ rsn.1
+          ++ [.popUntilMark gs.loops.length, .label] ++ rt.1 ++ fBr rb.1 ++ rb.1
+          ++ [.popUntilMark gs.loops.length, .jump (-((rsn.1.length : Int) + rt.1.length + rb.1.length + 6)), .label,
+              .clearMark gs.loops.length]) .removeScope ([.push .nil] ++ post) :=
+        hin10.at (by simp [forFull]) (by rw [hpc10]; simp; omega)
+      have r11 : ReachX s10 s10.popScope := (Reach.step a10 (fun f => by
+        rw [exec_removeScope, hlin10]
+        show _ = (Except.ok (), { s10 with pc := s10.pc + 1, linear := s10.linear.tail })
+        rw [hlin10]; rfl)).toX
+      have a11 : At s10.popScope (pre ++ fHd gs.loops.length ++ ri.1 ++ fMid gs.loops.length rsn.1 ++ rsn.1
+          ++ [.popUntilMark gs.loops.length, .label] ++ rt.1 ++ fBr rb.1 ++ rb.1
+          ++ [.popUntilMark gs.loops.length, .jump (-((rsn.1.length : Int) + rt.1.length + rb.1.length + 6)), .label,
+              .clearMark gs.loops.length, .removeScope]) (.push .nil) post :=
+        (hin10.of_fn (σ' := s10.popScope) rfl).at (by simp [forFull])
+          (by show s10.pc + 1 = _; rw [hpc10]; simp; omega)
+      have r12 := reach_push a11 |>.toX
+      -- the relation after the loop
+      have hflags : ∀ i, i < s.scopes.length → isFnScope s10 i = isFnScope s i := fun i hi => by
+        rw [hfr_in.flags i (by show i < (s.scopes ++ [_]).length; simp; omega), isFnScope_pushScope, if_pos hi]
+      have hfl : s.fns.length ≤ s10.fns.length := hfr_in.fnsLen
+      have hfo : ∀ id, id < s.fns.length → fnOf s10 id = fnOf s id := fun id hid => hfr_in.fns id hid
+      have hext : FramesExt rs rs3 := (FramesExt.newFrame rs env).trans (ext6.trans ext8).1
+      have hframe : FrameF s s10.popScope :=
+        ⟨⟨by show s10.linear.tail = _; rw [hlin10]; rfl, hfr_in.curfunc, hfr_in.addr, hfr_in.susp, hfl, hfo, hfr_in.loopsLen,
+          hfr_in.loops⟩, Nat.le_trans (by show s.scopes.length ≤ (s.scopes ++ [_]).length; simp) hfr_in.scLen, hflags⟩
+      have hm08 : MExt s m m8 := fun id hid =>
+        (hm8 id (Nat.lt_of_lt_of_le (by rw [hfns4]; exact hid) fr6.fnsLen)).trans (hm6 id (by rw [hfns4]; exact hid))
+      refine ⟨_, m8, .nil, (((((hreach7.trans r8).trans r9).trans r10).trans r11).trans r12), ⟨hfn10, ?_, ?_⟩, rfl,
+        (hrel.back (s₅ := s10.popScope) rel10 rfl rfl rfl rfl (by show s10.linear.tail = _; rw [hlin10]; rfl) hfr_in.curfunc
+          hflags hfl hfo hext).jmp _ _, hm08, ⟨hext, fun i c' hc' => (ext6.trans ext8).2 i c' hc'⟩, hframe.trans (FrameF.jmp _ _ _),
+        vOk_lit .nil (fun _ _ _ => rfl)⟩
+      · show s10.pc + 1 + 1 = _
+        rw [hpc10, hpc, hlen]; push_cast; omega
+      · show some Val.nil :: s10.data = _
+        rw [hd10]
+    | err rs3 => rw [h2] at hloop; exact FailsX.of_reach hreach7 hloop
+    | timeout => trivial
+    | brk l rs3 => rw [h2] at hloop; exact hloop.elim
+    | cont l rs3 => rw [h2] at hloop; exact hloop.elim
+  | err rs2 => rw [h1] at hs4'; exact FailsX.of_reach hreach4 hs4'
+  | timeout => trivial
+  | brk l rs2 => rw [h1] at hs4'; exact hs4'.elim
+  | cont l rs2 => rw [h1] at hs4'; exact hs4'.elim
+
 end ZygoVerif.Sim
